@@ -23,7 +23,9 @@ package c17
 import (
 	_ "embed"
 	"fmt"
+	"os"
 	"reflect"
+	"regexp"
 	"runtime/debug"
 	"sort"
 	"strings"
@@ -44,7 +46,7 @@ func init() {
 	engine.Register(&engine.Check{
 		ID:    "C17",
 		Title: "Copy() yields an equivalent and fully independent runtime",
-		Rule: fmt.Sprintf("histories H = all subsets of <= 2 (quick) / <= 3 (thorough) of %d heap ingredients; per H: O=run(H), C=O.Copy(), C2=C.Copy(), R=replay(H). "+
+		Rule: fmt.Sprintf("histories H = all subsets of <= 2 (quick) / <= 3 (thorough) of %d heap ingredients (the Solo ones - rebound global special bindings, bridged Go slice/map/functions - at most one per history and only in histories of <= 1 (quick) / <= 2 (thorough) ingredients); per H: O=run(H), C=O.Copy(), C2=C.Copy(), R=replay(H). "+
 			"equiv: one case per H (Copy returns; dump(O)=dump(C)=dump(C2)=dump(R)); non-trivial when H is non-empty. "+
 			"heap: one case per H and runtime pair (E5 intersection of Go heap graphs vs allow-list); non-trivial when H is non-empty. "+
 			"isolate: one case per (H, mutation M applicable to H (%d mutations: per-ingredient ones when the ingredient is in H, 6 generic ones for |H| <= 1 quick / <= 2 thorough), side mutated in {O,C,C2}): result and dump of the mutated side equal those of replay+M, the dumps of the other sides (its pair partners; both other runtimes in thorough for |H| <= 2) are unchanged; "+
@@ -58,7 +60,7 @@ func init() {
 			"the replayed runtime R (otto.New + same programs, never copied) is the reference: equivalence and post-mutation state are differential against R, so a defect that affects fresh runtimes and copies alike is invisible here (it belongs to C01/C07)",
 			"dump() observes through the runtime's own Object.getOwnPropertyNames/getOwnPropertyDescriptor/getPrototypeOf/isExtensible/Object.prototype.toString, captured before H runs; the `caller` property of functions is not described (getOwnPropertyDescriptor on it panics in otto) and is observed by a probe instead",
 			"E5 cannot look inside Go closures: a closure object shared by two runtimes is reported when it is heap-allocated (captures state), what it captured is not enumerated",
-			"bridged Go values are shared by design and pruned from the heap comparison; no mutation touches them",
+			"for bridged Go values the Go value itself (pointee, backing array, map, func) is shared by design and pruned from the heap comparison, and no mutation writes elements through the bridge; what otto owns about them (wrapper properties, the slice header kept for a by-value slice, the heap in which a bridged function builds results) is inside the oracle",
 		},
 		CrashIsViolation: true,
 		QuickBudget:      20 * time.Minute,
@@ -68,6 +70,10 @@ func init() {
 	engine.RegisterSignature("c17-caller-getter", sigCallerGetter)
 	engine.RegisterSignature("c17-getter-closure", sigGetterClosure)
 	engine.RegisterSignature("c17-error-trace", sigErrorTrace)
+	engine.RegisterSignature("c17-copy-eval-binding", sigCopyEvalBinding)
+	engine.RegisterSignature("c17-direct-eval-identity", sigDirectEvalIdentity)
+	engine.RegisterSignature("c17-bridged-func-runtime", sigBridgedFuncRuntime)
+	engine.RegisterSignature("c17-goslice-length-shared", sigGoSliceLength)
 }
 
 // ---------------------------------------------------------------------------
@@ -105,13 +111,23 @@ func (h history) source() string {
 	return sb.String()
 }
 
-// histories enumerates every subset of at most max ingredients, smallest first.
-func histories(max int) []history {
+// histories enumerates every subset of at most max ingredients, smallest first;
+// subsets containing a Solo ingredient only up to size soloMax, and never two of them.
+func histories(max, soloMax int) []history {
 	var out []history
 	n := len(ingredients)
 	var rec func(start int, cur []int, size int)
 	rec = func(start int, cur []int, size int) {
 		if len(cur) == size {
+			solos := 0
+			for _, j := range cur {
+				if ingredients[j].Solo {
+					solos++
+				}
+			}
+			if solos > 1 || (solos == 1 && size > soloMax) {
+				return
+			}
 			h := history{idx: append([]int(nil), cur...)}
 			h.key = strings.Join(h.names(), "+")
 			if h.key == "" {
@@ -142,6 +158,11 @@ func maxSubset(r *engine.Run) int {
 // ingredients — they do not interact with H, so repeating them for every larger
 // subset only repeats the same transitions.
 func applicable(h history, genericMax int) []mutation {
+	for _, j := range h.idx {
+		if ingredients[j].Solo && genericMax > 1 {
+			genericMax = 1 // a Solo ingredient meets the generic mutations alone only
+		}
+	}
 	var out []mutation
 	for _, m := range mutations {
 		if (m.Needs == "" && len(h.idx) <= genericMax) || (m.Needs != "" && h.has(m.Needs)) {
@@ -332,19 +353,61 @@ func (p reporter) compareDumps(key string, h history, what string, exp, obs stri
 			}
 		}
 	}
-	minus, plus := splitDiff(d)
-	aux := map[string]string{"ingredients": strings.Join(h.names(), ","), "what": what}
-	if len(d) <= 60 {
-		aux["diff"] = strings.Join(d, "\n")
-	} else {
-		aux["diff"] = "(more than 60 differing lines)"
+	// The differing lines are partitioned by the ingredient whose probe they belong to
+	// (everything else: "objects"), one mismatch per part, so that a history combining two
+	// independent defects yields two separately classifiable reports. A single part keeps
+	// the plain key.
+	parts := map[string][]string{}
+	var order []string
+	for _, l := range d {
+		g := diffGroup(l)
+		if _, ok := parts[g]; !ok {
+			order = append(order, g)
+		}
+		parts[g] = append(parts[g], l)
 	}
-	for k, v := range extra {
-		aux[k] = v
+	sort.Strings(order)
+	for _, g := range order {
+		dl := parts[g]
+		minus, plus := splitDiff(dl)
+		aux := map[string]string{"ingredients": strings.Join(h.names(), ","), "what": what, "group": g}
+		if len(dl) <= 60 {
+			aux["diff"] = strings.Join(dl, "\n")
+		} else {
+			aux["diff"] = "(more than 60 differing lines)"
+		}
+		for k, v := range extra {
+			aux[k] = v
+		}
+		k := key
+		if len(order) > 1 {
+			k = key + "@" + g
+		}
+		p.file(engine.Mismatch{Key: k, Input: what + "\n" + h.source() + extra["mutation"],
+			Expected: clip(minus, 8), Observed: clip(plus, 8), Aux: aux})
 	}
-	p.file(engine.Mismatch{Key: key, Input: what + "\n" + h.source() + extra["mutation"],
-		Expected: clip(minus, 8), Observed: clip(plus, 8), Aux: aux})
 	return false
+}
+
+var ingredientNames = func() map[string]bool {
+	m := map[string]bool{}
+	for _, i := range ingredients {
+		m[i.Name] = true
+	}
+	return m
+}()
+
+// diffGroup: "probe <ingredient>.<name> ..." lines belong to <ingredient>, all other
+// lines to "objects".
+func diffGroup(line string) string {
+	l := strings.TrimLeft(line, "+-")
+	if strings.HasPrefix(l, "probe ") {
+		rest := l[len("probe "):]
+		if i := strings.IndexByte(rest, '.'); i > 0 && ingredientNames[rest[:i]] {
+			return rest[:i]
+		}
+	}
+	return "objects"
 }
 
 // selected says whether the case (or case group) with this key prefix runs: in
@@ -358,7 +421,27 @@ func selected(r *engine.Run, base string) bool {
 
 func setup(r *engine.Run) []history {
 	debug.SetGCPercent(400)
-	hs := histories(maxSubset(r))
+	hs := histories(maxSubset(r), maxSubset(r)-1)
+	if only := os.Getenv("MC_C17_ONLY"); only != "" {
+		// development aid: restrict to histories built from the named ingredients only
+		// (the run is then reported as capped, never as exhaustive)
+		keep := map[string]bool{}
+		for _, n := range strings.Split(only, ",") {
+			keep[n] = true
+		}
+		var sel []history
+		for _, h := range hs {
+			ok := true
+			for _, n := range h.names() {
+				ok = ok && keep[n]
+			}
+			if ok {
+				sel = append(sel, h)
+			}
+		}
+		hs = sel
+		r.Cap("MC_C17_ONLY=" + only)
+	}
 	r.Bound("ingredients", fmt.Sprint(len(ingredients)))
 	r.Bound("max_subset", fmt.Sprint(maxSubset(r)))
 	r.Bound("histories", fmt.Sprint(len(hs)))
@@ -595,6 +678,12 @@ func allowReason(i heap.Info) string {
 	if i.Static {
 		return "static (program image: package-level variable or static funcval)"
 	}
+	if i.Kind == reflect.Func && strings.Contains(i.Func, "otto.(*runtime).toValue.func") {
+		// wrapper of a Go function bridged by reflection: it captures the Go func value,
+		// which is shared by design; whether it also captured the runtime it was created
+		// in is invisible here and is checked behaviourally (ingredient gofunc)
+		return "bridged Go function (shared by design, outside the oracle)"
+	}
 	return typeAllow(i.Type)
 }
 
@@ -624,7 +713,7 @@ func typeAllow(t reflect.Type) string {
 		s = "wide string payload (value receivers only, never written)"
 	case strings.HasPrefix(n, "*otto.node") || strings.HasPrefix(n, "[]otto.node"):
 		s = "compiled syntax tree (cmpl_parse.go; never written by evaluation)"
-	case n == "*otto.goStructObject" || n == "*otto.goMapObject" || n == "*otto.goArrayObject" || n == "*otto.goSliceObject" || n == "reflect.Value":
+	case n == "*otto.goStructObject" || n == "*otto.goMapObject" || n == "*otto.goArrayObject" || n == "reflect.Value":
 		s = "bridged Go value (shared by design, outside the oracle)"
 	}
 	typeCache[t] = s
@@ -866,4 +955,220 @@ func sigGetterClosure(m *engine.Mismatch) bool {
 // function objects, through which the whole original heap is reachable.
 func sigErrorTrace(m *engine.Mismatch) bool {
 	return m.Family == "heap" && m.Aux["class"] == "data:[]otto.frame@trace"
+}
+
+// ---- round 6 ---------------------------------------------------------------
+
+func hasAnyIngredient(m *engine.Mismatch, names ...string) bool {
+	for _, n := range names {
+		if hasIngredient(m, n) {
+			return true
+		}
+	}
+	return false
+}
+
+// copySide reports whether the key of an equiv / isolate "#self" mismatch names a
+// copy (C or C2) as the compared side; the "@group" suffix is ignored.
+func copySide(m *engine.Mismatch) bool {
+	k := m.Key
+	if i := strings.LastIndex(k, "@"); i >= 0 {
+		k = k[:i]
+	}
+	switch m.Family {
+	case "equiv":
+		return strings.HasSuffix(k, "#C") || strings.HasSuffix(k, "#C2")
+	case "isolate":
+		return strings.HasSuffix(k, "/C#self") || strings.HasSuffix(k, "/C2#self")
+	}
+	return false
+}
+
+func diffOf(m *engine.Mismatch) (minus, plus []string) {
+	if m.Aux["diff"] == "" {
+		return nil, nil
+	}
+	return splitDiff(strings.Split(m.Aux["diff"], "\n"))
+}
+
+// sigCopyEvalBinding: Copy() panics with a failed type assertion in runtime.clone
+// itself exactly when the global property "eval" is not a function-valued data
+// property at Copy() time (ingredients evalnum, evaldel, evalacc).
+func sigCopyEvalBinding(m *engine.Mismatch) bool {
+	return m.Family == "equiv" && strings.HasSuffix(m.Key, "#copy") &&
+		hasAnyIngredient(m, "evalnum", "evaldel", "evalacc") &&
+		strings.HasPrefix(m.Observed, "Copy panicked: interface conversion: interface {} is ") &&
+		strings.HasPrefix(m.Aux["stack"], "(*runtime).clone < ")
+}
+
+var (
+	bindingsThrows = regexp.MustCompile(`^probe bindings\.values !> #\d+$`)
+	errHeader      = regexp.MustCompile(`^(#\d+) \[object Error\] ext proto=#\d+$`)
+)
+
+var directProbe = regexp.MustCompile(`^probe (evalrebound|evaluser)\.direct => s:"(2|E:ReferenceError)"$`)
+
+// sigDirectEvalIdentity: the copy takes its internal eval identity from the global
+// property "eval" at Copy() time; when that held another function (ingredients
+// evalrebound, evaluser) and a script on the copy restores the built-in, eval("y")
+// inside a function is no longer a direct eval there: ReferenceError instead of 2.
+// Accepts exactly: mutation <ingredient>.restore run on C or C2; the result (2 on the
+// replay, the ReferenceError on the copy) or the .direct probes ("2" vs "E:ReferenceError").
+func sigDirectEvalIdentity(m *engine.Mismatch) bool {
+	if m.Family != "isolate" || !hasAnyIngredient(m, "evalrebound", "evaluser") {
+		return false
+	}
+	if mn := m.Aux["mutation_name"]; mn != "evalrebound.restore" && mn != "evaluser.restore" {
+		return false
+	}
+	if s := m.Aux["side"]; s != "C" && s != "C2" {
+		return false
+	}
+	if strings.HasSuffix(m.Key, "#result") {
+		return m.Expected == "d:2" && m.Observed == "throw: ReferenceError: 'y' is not defined"
+	}
+	if !copySide(m) {
+		return false
+	}
+	minus, plus := diffOf(m)
+	// the same loss seen through ingredient bindings, whose probe closures read their
+	// captured scopes by direct eval: probe bindings.values throws ReferenceError for the
+	// first captured name (ev1), and the dump gains that one Error object
+	if hasIngredient(m, "bindings") {
+		switch m.Aux["group"] {
+		case "bindings":
+			return len(minus) == 1 && len(plus) == 1 && strings.HasPrefix(minus[0], `probe bindings.values => s:"`) &&
+				bindingsThrows.MatchString(plus[0])
+		case "objects":
+			if len(minus) != 0 || len(plus) < 2 {
+				return false
+			}
+			h := errHeader.FindStringSubmatch(plus[0])
+			if h == nil {
+				return false
+			}
+			msg := false
+			for _, l := range plus[1:] {
+				if !strings.HasPrefix(l, h[1]+".") {
+					return false
+				}
+				msg = msg || l == h[1]+`.message WEC s:"'ev1' is not defined"`
+			}
+			return msg
+		}
+	}
+	if len(minus) == 0 || len(minus) != len(plus) {
+		return false
+	}
+	for i := range minus {
+		a, b := directProbe.FindStringSubmatch(minus[i]), directProbe.FindStringSubmatch(plus[i])
+		if a == nil || b == nil || a[1] != b[1] || a[2] != "2" || b[2] != "E:ReferenceError" {
+			return false
+		}
+	}
+	return true
+}
+
+var (
+	resultsProbe = regexp.MustCompile(`^probe gofunc\.results => s:"(true|false),(true|false),(true|false),(.*)"$`)
+	leakLine     = regexp.MustCompile(`^#\d+\.(leak --C s:"x"|leakm --C s:"y")$`)
+)
+
+// sigBridgedFuncRuntime: a Go function bridged by reflection keeps converting in the
+// runtime it was created in, so on a copy its results (and what is reachable from
+// them) belong to the original's heap. Accepts exactly, for histories with ingredient
+// gofunc: (a) on C/C2 the probe gofunc.results differs from the replay only in the
+// three prototype-identity flags, true on the replay and false on the copy; (b) for
+// mutation gofunc.leak run on C/C2: the typeof result "string,string" becomes
+// "undefined,undefined", the mutated copy lacks the two leak properties the replay has,
+// and the ORIGINAL (side O, untouched) gains exactly those two properties.
+func sigBridgedFuncRuntime(m *engine.Mismatch) bool {
+	if !hasIngredient(m, "gofunc") {
+		return false
+	}
+	if m.Family == "isolate" && m.Aux["mutation_name"] == "gofunc.leak" && (m.Aux["side"] == "C" || m.Aux["side"] == "C2") {
+		if strings.HasSuffix(m.Key, "#result") {
+			return m.Expected == "s:string,string" && m.Observed == "s:undefined,undefined"
+		}
+		if m.Aux["group"] == "objects" {
+			minus, plus := diffOf(m)
+			k := m.Key
+			if i := strings.LastIndex(k, "@"); i >= 0 {
+				k = k[:i]
+			}
+			switch {
+			case strings.HasSuffix(k, "#self"):
+				return len(plus) == 0 && allMatch(minus, leakLine, 2)
+			case strings.HasSuffix(k, "#iso:O"):
+				return len(minus) == 0 && allMatch(plus, leakLine, 2)
+			}
+			return false
+		}
+	}
+	if !copySide(m) || m.Aux["group"] != "gofunc" {
+		return false
+	}
+	minus, plus := diffOf(m)
+	if len(minus) != 1 || len(plus) != 1 {
+		return false
+	}
+	a, b := resultsProbe.FindStringSubmatch(minus[0]), resultsProbe.FindStringSubmatch(plus[0])
+	if a == nil || b == nil || a[4] != b[4] {
+		return false
+	}
+	changed := false
+	for i := 1; i <= 3; i++ {
+		if a[i] != b[i] {
+			if a[i] != "true" {
+				return false
+			}
+			changed = true
+		}
+	}
+	return changed
+}
+
+func allMatch(lines []string, re *regexp.Regexp, n int) bool {
+	if len(lines) != n {
+		return false
+	}
+	for _, l := range lines {
+		if !re.MatchString(l) {
+			return false
+		}
+	}
+	return true
+}
+
+var sliceProbe = regexp.MustCompile(`^probe goslice\.read => s:"(\d,\d,\d?),(.*)"$`)
+
+var sliceElemLine = regexp.MustCompile(`^#\d+\.(1 WE- d:2|2 WE- d:3)$`)
+
+// sigGoSliceLength: the wrapper of a Go slice handed over by value (*goSliceObject,
+// which holds the slice header) is shared by the original and its copies: `length = 1`
+// on one side truncates the slice seen by the others. Accepts exactly: the E5 class of
+// the shared wrapper; and, for mutation goslice.length, the untouched sides losing
+// elements 1 and 2 and reading length 1.
+func sigGoSliceLength(m *engine.Mismatch) bool {
+	if !hasIngredient(m, "goslice") {
+		return false
+	}
+	if m.Family == "heap" {
+		return m.Aux["class"] == "data:*otto.goSliceObject@value"
+	}
+	if m.Family != "isolate" || m.Aux["mutation_name"] != "goslice.length" || !strings.Contains(m.Key, "#iso:") {
+		return false
+	}
+	minus, plus := diffOf(m)
+	switch m.Aux["group"] {
+	case "goslice":
+		if len(minus) != 1 || len(plus) != 1 {
+			return false
+		}
+		a, b := sliceProbe.FindStringSubmatch(minus[0]), sliceProbe.FindStringSubmatch(plus[0])
+		return a != nil && b != nil && a[1] == "3,1,3" && b[1] == "1,1," && a[2] == b[2]
+	case "objects":
+		return len(plus) == 0 && allMatch(minus, sliceElemLine, 2)
+	}
+	return false
 }
